@@ -40,7 +40,23 @@ def run(ctx):
         return
     per_group, n_pres = (1, 1) if ctx.tier == "quick" else (4, 3)
     cases, disc = H.family(ctx, build["tables"], per_group, n_pres)
-    rows = H.run_impl(cases)
+    # a broken table clause about a normalizer: aim the search at crystals for which that normalizer is applied
+    targeted = []
+    if not build["ok"]:
+        from props.c14 import offenders_from_build
+        from lib import crystals as K
+        offs, _ = offenders_from_build(build)
+        tg = sorted({(o["sg"], o["k"]) for o in offs if o["clause"].startswith("norm-") and "k" in o})[:8]
+        nid = 10**6
+        for (sg, k) in tg:
+            for pat in H.patterns_selecting(build["tables"], sg, k, ctx.rng):
+                cr = K.make_crystal(sg, ctx.rng, pat, build["tables"])
+                if cr is not None and K.stable_group(cr) == sg:
+                    targeted.append({"id": nid, "sg": sg, "base": nid, "crystal": cr, "pres": {"kind": "targeted", "normalizer": k, "pattern": pat}})
+                    nid += 1
+        ctx.coverage["targeted_search"] = {"normalizers": tg, "crystals": len(targeted)}
+        cases = targeted + cases
+    rows, reuse_rows = H.run_impl(cases, reuse=True)
     known = C.load_known("C05")
     by_id = {c["id"]: c for c in cases}
     # (1) model vs implementation inside Coq
@@ -80,15 +96,23 @@ def run(ctx):
             ctx.violation({"kind": "property-fails-on-implementation", "crystal": c["crystal"], "sg": c["sg"], "failed_clauses": bad,
                            "presentation": c["pres"], "key": key, "broken_obligation": broken,
                            "call": "SymmetryAnalyzer(crystal, symmetry_tol=1e-3).get_conventional_system()"}, found_input=True)
+    bad_reuse = [r for r in reuse_rows if "error" in r or not r.get("same")]
+    ctx.coverage["analyzer_reuse"] = {"sequences_checked": len(reuse_rows), "differences": bad_reuse[:5]}
+    ctx.add_cases(len(reuse_rows), len(reuse_rows))
+    for r in bad_reuse[:1]:
+        c = by_id[r["id"]]
+        ctx.violation({"kind": "property-fails-on-implementation", "history": "one SymmetryAnalyzer instance fed successive crystals through set_system(); "
+                       "the answer for this crystal differs from a freshly constructed analyzer", "crystal": c["crystal"], "sg": c["sg"], "detail": r,
+                       "broken_obligation": broken}, found_input=True)
     for (c, r) in errs[:1]:
         ctx.violation({"kind": "analyzer-raised", "crystal": c["crystal"], "sg": c["sg"], "error": r, "broken_obligation": broken}, found_input=True)
     ctx.coverage["predicate_failures"] = [{"sg": c["sg"], "clauses": bad} for c, r, bad in viol[:20]]
-    if (failing or float_bad) and not viol and not errs:
+    if (failing or float_bad) and not viol and not errs and not bad_reuse:
         cid = (failing or float_bad)[0]
         ctx.violation({"kind": "model-vs-implementation-disagree", "broken": "correspondence: GroundState.ground_state / wrap(T.std_positions) vs SymmetryAnalyzer._find_wyckoff_ground_state",
                        "crystal": by_id[cid]["crystal"], "sg": by_id[cid]["sg"], "implementation": {k: rows[cid][k] for k in ("chosen_index", "spglib_letters_conv", "conv_letters", "std_types")},
                        "property_predicate_on_this_input": "holds"}, found_input=False)
-    elif broken and not viol and not errs:
+    elif broken and not viol and not errs and not bad_reuse:
         ctx.violation({"kind": "proof-obligation-broken", "broken": broken, "searched": "%d presentations: the property's predicate holds on all" % len(cases)}, found_input=False)
 
 
